@@ -245,7 +245,12 @@ def run_case(case: dict) -> dict:
                 return res
         if "crosstalk" in (case.get("exclude") or []):
             labels = {n: k for k, v in obs.inputs.items() for n in v}
+            from ..static_trigger import crosstalk_possible
+
             sites = crosstalk_sites(w, [], labels, memory_ok=True)
+            if sites and not crosstalk_possible(stmts, case["inputs"]):
+                probe(res, "crosstalk_structure_without_static_trigger")
+                sites = []
             if sites:
                 res["status"] = "excluded"
                 res["excluded_by"] = "crosstalk"
